@@ -435,6 +435,38 @@ def r6_locks(ctx):
                         f'{f.name}: `{src(n.test, 60)}` decides on shared state `{", ".join(sorted(hits))}` after leaving the critical section that updated it (check-then-act): '
                         'two threads can both see the same state and both act on it',
                     )
+        # (ii) check-then-act across critical sections: a mutation guarded by a local that was
+        # computed from protected state must sit in the SAME `with lock` block as that computation
+        for f in threadfuncs:
+            aliases = getattr(f, '_aliases', {})
+            derived = {}
+            for a in walk_local(f.node):
+                if isinstance(a, ast.Assign) and len(a.targets) == 1 and isinstance(a.targets[0], ast.Name):
+                    names = {x.id for x in ast.walk(a.value) if isinstance(x, ast.Name)}
+                    if {aliases.get(x, x) for x in names} & protected:
+                        w = _lock_block(a, locks)
+                        if w is not None:
+                            derived[a.targets[0].id] = w
+            for n in walk_local(f.node):
+                root, kind = _mutation(n, own_names, aliases)
+                if not root or root not in protected:
+                    continue
+                wm = _lock_block(n, locks)
+                for anc in ancestors(n):
+                    if anc is f.node:
+                        break
+                    if isinstance(anc, (ast.If, ast.While)):
+                        used = {x.id for x in ast.walk(anc.test) if isinstance(x, ast.Name)} & set(derived)
+                        for d in used:
+                            ctx.check(
+                                derived[d] is wm,
+                                'C09.R6',
+                                f'{func_label(f)}|decide-and-act-in-one-critical-section:{root}',
+                                loc(f, n),
+                                f'{f.name}: the decision `{d}` and the mutation of `{root}` it guards happen in one critical section',
+                                f'{f.name}: `{d}` is computed from shared state in one critical section, the lock is released, and `{root}` is mutated on that (possibly stale) decision in another: '
+                                'a second thread can change the state in between (e.g. take a reference that is then deleted) and the command fails spuriously',
+                            )
     ctx.floor('C09.R6', 'lock-protected shared variables', n_vars, 3)
 
 
@@ -473,6 +505,15 @@ def _mutation(n, own_names, aliases):
         if r:
             return r, f'.{n.func.attr}()'
     return None, None
+
+
+def _lock_block(n, locks):
+    for a in ancestors(n):
+        if isinstance(a, (ast.With, ast.AsyncWith)) and any(isinstance(it.context_expr, ast.Name) and it.context_expr.id in locks for it in a.items):
+            return a
+        if isinstance(a, (ast.FunctionDef, ast.AsyncFunctionDef)):
+            break
+    return None
 
 
 def _held_locks(n, locks):
